@@ -208,7 +208,7 @@ theorem inv_step {c : Cfg} {g : Graph} {s : St} (a : Act) (h : Inv c g s)
     split
     · exact h
     · split
-      · exact h
+      · exact h.set_cur none
       · rename_i t _ k hk
         exact inv_tickTask h hk
   | resume t =>
